@@ -18,12 +18,13 @@ abbrev Str := List CP
 
 /-- Python exceptions that the modelled code can raise at the modelled points. -/
 inductive PyExc where
-  | indexError | keyError | assertionError | unboundLocal | typeError | recursion
+  | indexError | keyError | assertionError | unboundLocal | typeError | recursion | nameError | other
 deriving Repr, DecidableEq
 
 def PyExc.name : PyExc → String
   | .indexError => "IndexError" | .keyError => "KeyError" | .assertionError => "AssertionError"
   | .unboundLocal => "UnboundLocalError" | .typeError => "TypeError" | .recursion => "RecursionError"
+  | .nameError => "NameError" | .other => "Other"
 
 structure PState where
   pos      : Nat
